@@ -207,7 +207,9 @@ def read_pads(attr_reader: AttributeReader, attrs: PadAttrs) -> None:
             pads = []
         case "NOTSET":
             auto_pad = sg.AutoPad.NotSet
-            pads = attr_reader.get_attr("pads", "ints", [0, 0, 0, 0])
+            pads = attr_reader.get_attr(
+                "pads", "ints", [0, 0] * spatial_dims(attr_reader)
+            )
             if len(pads) not in [2, 4]:
                 raise ConversionError('"padding" attribute must have 2 or 4 values')
         case "VALID":
@@ -248,13 +250,24 @@ def read_rnn_attrs(
     attr_reader.check_attr("layout", "int", 0)
 
 
+def spatial_dims(attr_reader: AttributeReader) -> int:
+    """
+    Return the number of spatial dimensions of a convolution or pooling operator.
+
+    This is the length of the `kernel_shape` attribute. If that is not set, the
+    operator is assumed to be 2D.
+    """
+    kernel_shape = attr_reader.get_attr("kernel_shape", "ints", None)
+    return len(kernel_shape) if kernel_shape is not None else 2
+
+
 def read_strides(
     attr_reader: AttributeReader,
 ):
     """
     Read a stride specification from an ONNX operator.
     """
-    strides = attr_reader.get_attr("strides", "ints", [1, 1])
+    strides = attr_reader.get_attr("strides", "ints", [1] * spatial_dims(attr_reader))
     if len(strides) not in [1, 2]:
         raise ConversionError('"strides" attribute must have 1 or 2 values')
     return strides
@@ -469,7 +482,9 @@ def op_node_from_onnx_operator(
 
         case "Conv" | "ConvInteger":
             attrs = sg.ConvAttrsT()
-            attrs.dilations = read_dilations(attr_reader, [1, 1])
+            attrs.dilations = read_dilations(
+                attr_reader, [1] * spatial_dims(attr_reader)
+            )
             attrs.groups = attr_reader.get_attr("group", "int", 1)
             read_pads(attr_reader, attrs)
             attrs.strides = read_strides(attr_reader)
